@@ -11,11 +11,13 @@ GEN = ["Handlers"]
 VO = ["Properties/C01.vo", "Properties/C03.vo", "Extract/D_Client.vo"]
 MODULE = "Properties.C01"
 THEOREMS = ["c01_failure_closes_fetch", "c01_failure_closes_store", "c01_failure_closes_misc", "c01_src_handlers", "c01_fresh_connection",
-            "c01_only_own_connection", "c01_noreply_never_reads", "c01_server_silent_iff", "c01_exact_store", "c01_exact_misc", "c01_exact_noreply", "c01_exact_fetch"]
+            "c01_only_own_connection", "c01_noreply_never_reads", "c01_server_silent_iff", "c01_exact_store", "c01_exact_misc", "c01_exact_noreply", "c01_exact_fetch",
+            "c01_ready_store", "c01_ready_misc", "c01_ready_noreply", "c01_ready_fetch", "c01_ready_after_failure"]
 DRIVER = "D_Client"
-TECHNIQUE = ("Coq proof (partial): on the Client model every failing call leaves self.sock None for any exception class, fault, peer "
+TECHNIQUE = ("Coq proof: on the Client model every failing call leaves self.sock None for any exception class, fault, peer "
              "and recv behaviour; fresh connections start empty; noreply calls perform no recv; the specification server is silent "
-             "exactly for noreply commands; exact consumption of the reply proved for the line-per-command exchanges and for retrievals (VALUE blocks) and checked "
+             "exactly for noreply commands; exact consumption of the reply proved for the line-per-command exchanges and for retrievals (VALUE blocks), from a "
+             "connected or a closed (reconnecting) client, and checked "
              "on the implementation with per-byte ownership tags over operations x fault plans x segmentations")
 LEVEL_TEXT = ("c01_failure_closes_*: for every configuration, peer, script and recv behaviour, an exception of ANY class escaping the "
               "socket phase of a call leaves self.sock = None (handler classes read from base.py on this run: c01_src_handlers); "
@@ -27,8 +29,11 @@ LEVEL_TEXT = ("c01_failure_closes_*: for every configuration, peer, script and r
               "peer that answers one CRLF-terminated line per command consumes exactly those lines (nothing unread, nothing over-read). "
               "c01_exact_fetch: the same for a reply of VALUE blocks closed by END, any number of items and any data bytes: each block is "
               "read by its announced length, nothing is left unread or over-read. "
-              "PARTIAL: for calls that reconnect first (and stats/gat variants), 'a returning call has consumed its reply to the last byte' "
-              "(quiet_run of c03_sequences) is checked with ownership tags, not proved.")
+              "c01_ready_*: the same from any ready client - connected with nothing pending on the socket whatever its local buffer "
+              "holds, or closed (c01_ready_after_failure: what a failed call leaves behind), in which case the call connects first "
+              "(any getaddrinfo list with at least one address, TLS or not) and the fresh socket has nothing pending. "
+              "Left to the ownership-tag search on the implementation: stats / raw_command / version replies and transports with "
+              "faults in mid-reply (there the theorem is c01_failure_closes_*: the connection is dropped).")
 LEVEL_NOTE = ("Trusted: Coq kernel; the hand model's correspondence with base.py; tools/py2coq gen_handlers; the ownership ghost of "
               "harness/clientsim.py (each reply byte is tagged with the call whose command elicited it). No axioms.")
 TRUSTED = ["Coq 8.16.1 kernel; no axioms",
